@@ -68,7 +68,7 @@ Theorem C02_lookup_refines fs u P :
   end.
 Proof.
   intros EP Hcl Hdd Hu Hk.
-  assert (Hmm : (beqs GET GET || beqs GET HEAD || beqs GET OPTIONS) && negb (beqs u [47]) = true).
+  assert (Hmm : is_ghO GET && negb (beqs u [47]) = true).
   { destruct (beqs u [47]) eqn:E; [apply beqs_eq in E; contradiction|reflexivity]. }
   destruct Hcl as [[t Et] [Hq Hh]].
   assert (Hdi : exists di, dir_index P = SOk di /\ (di = INDEX_HTML \/ di = 47 :: INDEX_HTML)).
